@@ -412,7 +412,7 @@ theorem qrStep_Tof {sqrt : K → K} (hs : SqrtOK sqrt) (n k : Nat) (hk : k < n) 
 `d` and strict upper part `a`; and no diagonal entry is null -/
 theorem qrBackSubst_spec {n : Nat} {e : K} (he : 0 < e) (a : Mat K) (d v x : Vec K)
     (h : qrBackSubst n e a d v = some x) :
-    ∀ l, l < n → d.get l ≠ 0 ∧
+    ∀ l, l < n → ¬ absT (d.get l) < e ∧
       d.get l * x.get l + ∑ j ∈ range (n - (l + 1)), a.get l (l + 1 + j) * x.get (l + 1 + j) = v.get l := by
   unfold qrBackSubst at h
   simp only [subFrom_eq] at h
@@ -422,7 +422,7 @@ theorem qrBackSubst_spec {n : Nat} {e : K} (he : 0 < e) (a : Mat K) (d v x : Vec
         else some (v.set (n - 1 - t)
           ((v.get (n - 1 - t) - ∑ j ∈ range (n - (n - 1 - t + 1)), a.get (n - 1 - t) (n - 1 - t + 1 + j) *
             v.get (n - 1 - t + 1 + j)) / d.get (n - 1 - t)))) v = some x →
-      (∀ l, n - c ≤ l → l < n → d.get l ≠ 0 ∧
+      (∀ l, n - c ≤ l → l < n → ¬ absT (d.get l) < e ∧
         d.get l * x.get l + ∑ j ∈ range (n - (l + 1)), a.get l (l + 1 + j) * x.get (l + 1 + j) = v.get l) ∧
       (∀ l, l < n - c → x.get l = v.get l) := by
     intro c
@@ -455,7 +455,7 @@ theorem qrBackSubst_spec {n : Nat} {e : K} (he : 0 < e) (a : Mat K) (d v x : Vec
         rw [hs l (by omega)]
         by_cases hlr : l = r
         · subst hlr
-          refine ⟨hd, ?_⟩
+          refine ⟨hchk, ?_⟩
           rw [Vec.get_set, if_pos rfl, ← i2 l (by omega)]
           field_simp
           ring
@@ -466,6 +466,28 @@ theorem qrBackSubst_spec {n : Nat} {e : K} (he : 0 < e) (a : Mat K) (d v x : Vec
         exact i2 l (by omega)
   intro l hl
   exact (key n (le_refl _) x h).1 l (by omega) hl
+
+/-- the outcome of `QRDecomp::back_substitute` (exception or not) depends on `rdiag` only -/
+theorem qrBackSubst_some {n : Nat} {e : K} (a : Mat K) (d v : Vec K)
+    (hchk : ∀ l, l < n → ¬ absT (d.get l) < e) : ∃ x, qrBackSubst n e a d v = some x := by
+  unfold qrBackSubst
+  have key : ∀ c, c ≤ n → ∃ x, forRangeOpt 0 c
+      (fun t (v : Vec K) =>
+        let l := n - 1 - t
+        if absT (d.get l) < e then none
+        else some (v.set l (subFrom (v.get l) (fun j => a.get l j * v.get j) (l + 1) (n - (l + 1)) / d.get l)))
+      v = some x := by
+    intro c
+    induction c with
+    | zero => intro _; exact ⟨v, rfl⟩
+    | succ c ih =>
+      intro hc
+      obtain ⟨z, hz⟩ := ih (by omega)
+      rw [forRangeOpt_succ, hz]
+      simp only [Option.bind_some, zero_add]
+      rw [if_neg (hchk _ (by omega))]
+      exact ⟨_, rfl⟩
+  exact key n (le_refl _)
 
 /-! ### the whole decomposition -/
 
@@ -575,7 +597,7 @@ theorem qrSolve_sound {sqrt : K → K} (hs : SqrtOK sqrt) {n : Nat} {e : K} (he 
       rw [hk]
       obtain ⟨g1, _, g3, g4⟩ := qS_final sqrt n A k hkn
       have hα : qAlpha sqrt n k (qS sqrt n A k).a ≠ 0 := by
-        rw [← g3]; exact (hR k hkn).1
+        rw [← g3]; exact ne_zero_of_not_absT_lt he (hR k hkn).1
       have hβ : qBeta sqrt n k (qS sqrt n A k).a ≠ 0 := ne_of_gt (qBeta_pos hs n k _ hα)
       have hu : (fun r => SF.a.get r k) = fun r => (qA1 sqrt n k (qS sqrt n A k).a).get r k := by
         funext r; exact g1 r
